@@ -386,6 +386,25 @@ def analyse(rep):
                 nsep += 1
     if not nsep:
         rep.ok('C16.framing', '%s info/encode' % FILE, 'the separator is never used as a character set (strip family)')
+    # --- compact() and the shared clean-up leave the characters of values alone: GS1 values are written in the "charset 82"
+    #     (letters, digits and !"%&'()*+,-./:;<=>?_), the parentheses around identifiers are the only characters compact() may drop
+    cfn = funcs.get('compact')
+    if cfn is None:
+        raise AnalysisError('%s: compact() vanished' % FILE)
+    dels = [c for c in ast.walk(cfn) if isinstance(c, ast.Call) and src(c.func) == 'clean' and len(c.args) > 1]
+    for c in dels:
+        d_ = c.args[1]
+        okd = isinstance(d_, ast.Constant) and isinstance(d_.value, str) and set(d_.value) <= set('()')
+        rep.check(okd, 'C16.value', FILE, 'compact', src(c)[:80], c.lineno,
+                  'compact() deletes %s: besides the parentheses written around identifiers these characters can belong to a value or to the '
+                  'caller\'s separator, which info() then no longer finds' % src(d_)[:40], what='compact() deletes only ( and )')
+    from . import c14 as _c14
+    cmap = _c14.charmap()
+    charset82 = '!"%&\'()*+,-./0123456789:;<=>?ABCDEFGHIJKLMNOPQRSTUVWXYZ_abcdefghijklmnopqrstuvwxyz'
+    altered = sorted(ch for ch in charset82 if cmap.get(ch, ch) != ch)
+    rep.check(not altered, 'C16.value', 'stdnum/util.py', 'clean', 'look-alike table on the GS1 character set', 0,
+              'clean() rewrites %s, which can be part of a GS1 value (character set 82): the validated form decodes to another value than the input'
+              % ', '.join('%r -> %r' % (ch, cmap[ch]) for ch in altered), what='the 82 value characters are fixed points of clean()')
     # --- value handed to the decoder is a slice of the element string
     numvar = inf.args.args[0].arg
     decs = [n for n in ast.walk(inf) if isinstance(n, ast.Call) and src(n.func) == '_decode_value']
